@@ -441,7 +441,9 @@ namespace Pistache::Http
             // This is the first time we are reading the payload
             else
             {
-                message->body_.reserve(contentLength);
+                // Content-Length comes from the peer: do not reserve more than has
+                // actually been received
+                message->body_.reserve(std::min<uint64_t>(contentLength, cursor.remaining()));
                 if (!readBody(contentLength))
                     return State::Again;
             }
